@@ -91,8 +91,16 @@ func mk(family string, sh shape, tags ...[2]string) Case {
 	return Case{Family: family, Shape: sh.name, Refs: sh.refs, Meta: sh.meta, Tags: append([][2]string{}, tags...)}
 }
 
-func enumerate(thorough bool) []Case {
-	var cases []Case
+func enumerate(thorough bool, cases []Case) []Case {
+	// about 537 k cases in the quick tier and 4.85 M in the thorough tier: one
+	// allocation instead of regrowing (and copying) the list again and again
+	capacity := 560000
+	if thorough {
+		capacity = 4900000
+	}
+	if cap(cases) < capacity {
+		cases = append(make([]Case, 0, capacity), cases...)
+	}
 
 	// ---- F1: single key sweep
 	var keys []string
